@@ -19,10 +19,20 @@ RULE = ('specifier sets: 0..6 specifiers, operator uniform over == != >= > <= <,
         'each set drawn from a random 1..4-element sub-pool so that ties, conflicts and collapses occur; requirement lists: '
         '0..4 entries over 3 names per public/private/auto/conflicts list; .pc fields: flags from weighted character classes '
         '(plain, blank, quotes, $, #, backslash, non-ASCII) and paths ${var}/suffix; a case is non-trivial when it has at '
-        'least two specifiers / a character outside [A-Za-z0-9_./=-], distinct by exact text')
+        'least two specifiers / a character outside [A-Za-z0-9_./=-], distinct by exact text; pkg_config projects '
+        '(harness/c17sys.py): 2..4 header directories / header files (names with blank, quote, $), 3..5 static/shared '
+        'libraries with dependencies on earlier ones and forwarded link options, 1..3 install() calls interleaved with 4..6 '
+        'pkg_config() calls dealt from all 18 combinations of auto_fill x libs None/[]/[..] x includes None/[]/[..] (every '
+        'project has an auto_fill package with an explicitly empty list and one with nothing given), options with blanks / '
+        'quotes / $ / ; / backquote, versions None / empty / given, public and private requirements on two stub packages and '
+        'on earlier packages with satisfied and unsatisfied specifier families split across the two lists; a case is one '
+        'package in one form (installed / -uninstalled), distinct by build.bfg text + package + form')
 TRUSTED = ('verspec LooseVersion parsing (versions enter the model as their printed form; the order model vparse/lex_leb is '
            'compared with verspec on the pool on every run)',
-           'R model of the pkgconf 1.8.1 .pc reader (Misc/PcFile.v), validated against /usr/bin/pkg-config on this run')
+           'R model of the pkgconf 1.8.1 .pc reader (Misc/PcFile.v), validated against /usr/bin/pkg-config on this run',
+           'system stage: the reference semantics of a generated project in harness/c17sys.py (ref_pkg / SysProject.expect: what '
+           'each package declares, closure over requirements as pkgconf 1.8.1 resolves them, install layout prefix/include and '
+           'prefix/lib/<subdir>); verspec membership for judging printed requirement entries')
 EXPLANATION = ''
 
 OPS = ['==', '!=', '>=', '>', '<=', '<']
@@ -647,7 +657,14 @@ def run(rep):
     dis_pc = stage_w_pc(rep, rng, n)
     found_pc = stage_pkgconf(rep, rng, (2500 if thorough else 250) * (10 if dis_pc else 1))
     found_pc += stage_pkgconf_requires(rep, rng, 400 if thorough else 40)
-    for d_, f_ in ((dis, found), (dis_pc, found_pc)):
+    # the pkg_config() builtin end to end: field logic against Misc/PcInfo.v, then the system-level oracle
+    from . import c17sys
+    rng_sys = random.Random('%s-c17sys' % rep.seed)
+    dis_pi = c17sys.stage_w_pcinfo(rep, rng_sys, 120 if thorough else 30)
+    found_sys = c17sys.stage_system(rep, rng_sys, thorough)
+    if dis_pi and not found_sys:
+        found_sys = c17sys.stage_system(rep, rng_sys, thorough, widen=4)
+    for d_, f_ in ((dis, found), (dis_pc, found_pc), (dis_pi, found_sys)):
         if d_ and not f_:
             i, call, iv, mv = d_[0]
             rep.fail('W:%s - model and implementation disagree (%d cases), e.g. %r: impl %r, model %r' % (
@@ -662,5 +679,9 @@ def replay(rep, path):
     load_local_findings(rep)
     if r.get('kind') == 'simplify':
         oracle_simplify_one(rep, r['specifiers'])
+        return
+    if r.get('kind') == 'system':
+        from . import c17sys
+        c17sys.replay_system(rep, r)
         return
     run(rep)
